@@ -469,6 +469,7 @@ def run(ctx):
             report(ctx, case, fails)
             if getattr(ob, "failed", False) and any(k == "call-does-not-return" for k, _ in fails):
                 dist["aborted_after_hang_at_population"] = idx
+                ctx.extra["hang"] = True
                 break
         if idx in (3, 4):
             ctx.sample({"population": case.to_json(), "(rank, crowding)": ob.attrs, "cuts(k, truncate, split, prune)": [list(c) for c in ob.cuts[:6]]})
@@ -498,7 +499,7 @@ def run(ctx):
                     report(ctx, sub, f)
                     break
     # oracle on inputs the exact model cannot take: arbitrary floats
-    nfl = ctx.scale(300, 5000)
+    nfl = 0 if ctx.extra.get("hang") else ctx.scale(300, 5000)     # a hang is already a concrete violation; every further call would hang too
     for _ in range(nfl):
         m = rng.randrange(1, 4)
         n = rng.randrange(0, 15)
@@ -508,6 +509,8 @@ def run(ctx):
         ctx.count()
         if fails:
             report(ctx, case, fails)
+            if getattr(ob, "failed", False) and any(k == "call-does-not-return" for k, _ in fails):
+                break
     ctx.coverage["oracle_only_float_populations"] = nfl
 
 
